@@ -530,6 +530,7 @@ impl Runner {
             "lev" => crate::misc::cmd_lev(self, &t),
             "spec" => crate::misc::cmd_spec(self, &t),
             "merge" => crate::misc::cmd_merge(self, &t),
+            "sched" => crate::misc::cmd_sched(&t),
             "corrupt" => self.cmd_corrupt(&t),
             "hdr" => self.cmd_hdr(&t),
             "enc" => {
